@@ -231,6 +231,21 @@ class _Canon(ast.NodeTransformer):
                     c.bound = getattr(self, 'bound', frozenset())
                     return c.visit(copy.deepcopy(ex))
             return ast.Name(id='%s#%d' % (node.id, owner.id), ctx=ast.Load())
+        # a module-level display of literals (CLOSE_CODES = ('221', '421'))
+        # reads as the display: `x in CLOSE_CODES` is `x in ('221', '421')`
+        try:
+            m = fr.ctx.func.module
+            v = m.globals.get(node.id)
+            if isinstance(v, (ast.Tuple, ast.List, ast.Set)) and v.elts and \
+                    all(isinstance(x, ast.Constant) for x in v.elts) and \
+                    sum(1 for st in m.tree.body
+                        if isinstance(st, ast.Assign) and any(
+                            isinstance(t, ast.Name) and t.id == node.id
+                            for t in st.targets)) == 1 and not isinstance(
+                        getattr(node, 'ctx', None), (ast.Store, ast.Del)):
+                return copy.deepcopy(v)
+        except Exception:
+            pass
         return ast.Name(id=node.id, ctx=ast.Load())
 
     def visit_Lambda(self, node):
